@@ -49,9 +49,9 @@ RULE = ("molecules: single atoms, diatomics, linear 3-4 atoms, symmetric and ran
         "a case is non-trivial when the frame differs from the base frame / the identity has a non-zero right-hand side; "
         "distinct by (molecule, frequencies, parameters, motion)")
 
-SLICE = ["lib/QcInst.v", "C06/Base.v", "C06/Model.v", "C06/Lemmas.v", "gen/C06_Gen.v",
+SLICE = ["lib/QcInst.v", "C06/Base.v", "C06/Model.v", "gen/C06_Gen.v",
          "C12/Base.v", "C12/Model.v", "C12/Lemmas.v", "C12/Props.v", "C12/Corr.v", "gen/C12_Gen.v"]
-BUILD_ORDER = ["lib/Sums.v", "lib/QcInst.v", "C06/Base.v", "gen/C06_Gen.v", "C06/Model.v", "C06/Lemmas.v",
+BUILD_ORDER = ["lib/Sums.v", "lib/QcInst.v", "C06/Base.v", "gen/C06_Gen.v", "C06/Model.v",
                "C12/Base.v", "gen/C12_Gen.v", "C12/Model.v", "C12/Lemmas.v", "C12/Props.v", "C12/Corr.v"]
 PRE = ("From Coq Require Import ZArith QArith Qcanon List Bool Arith.\nFrom AV.lib Require Import QcInst.\n"
        "From AV.C12 Require Import Base Model Corr.\nFrom AV.gen Require Import C12_Gen.\nImport ListNotations.\n")
@@ -73,6 +73,7 @@ PINS = [
     ("autode/species/species.py", "Species.vib_frequencies"),    # sp_vib: frequencies[6:] ([5:] when linear)
     ("autode/species/species.py", "Species.frequencies"),
     ("autode/species/species.py", "Species.is_linear"),          # ORACLE sp_linear: delegates to Atoms.are_linear
+    ("autode/atoms.py", "Atoms.are_linear"), ("autode/atoms.py", "Atoms.nvector"), ("autode/atoms.py", "Atoms.vector"),
     ("autode/species/species.py", "Species.h_cont"), ("autode/species/species.py", "Species.g_cont"),   # what is observed
     ("autode/values.py", "Energies.last"),
     ("autode/values.py", "Frequency.real"), ("autode/values.py", "Frequency.is_imaginary"),   # identity on the positive model frequencies
@@ -136,15 +137,21 @@ def library(rng, full):
              coords=[[0.6875, 0, 0], [-0.6875, 0, 0], [1.25, 0.9375, 0], [1.25, -0.9375, 0], [-1.25, 0.9375, 0], [-1.25, -0.9375, 0]],
              symmetric=True),
     ]
+    mols += [
+        # approximately symmetric (bond lengths differ by 0.03 A): still sigma = 2 / 3 within the search tolerance
+        dict(name="H2O~", symbols=["O", "H", "H"], coords=[[0, 0, 0.125], [0.75, 0, -0.4375], [-0.78125, 0, -0.4375]], symmetric=True),
+        dict(name="NH3~", symbols=["N", "H", "H", "H"],
+             coords=[[0, 0, 0.125], [0.96875, 0, -0.25], [-0.46875, 0.9375 * s3, -0.25], [-0.46875, -0.9375 * s3, -0.28125]], symmetric=True),
+    ]
     bz = [("C", [1.375 * math.cos(k * math.pi / 3), 1.375 * math.sin(k * math.pi / 3), 0.0]) for k in range(6)] + \
          [("H", [2.5 * math.cos(k * math.pi / 3), 2.5 * math.sin(k * math.pi / 3), 0.0]) for k in range(6)]
     mols.append(dict(name="C6H6", symbols=[s for s, _ in bz], coords=[c for _, c in bz], symmetric=True))
-    sizes = [3, 4, 5, 8, 12] if not full else [3, 4, 5, 6, 7, 8, 9, 10, 11, 12, 12]
+    sizes = [3, 4, 5, 8, 12, 20] if not full else [3, 4, 5, 6, 7, 8, 9, 10, 11, 12, 12, 20, 33, 50]
     for n in sizes:
         while True:
             pts = set()
             while len(pts) < n:
-                pts.add(tuple(rng.randint(-24, 24) / 8 for _ in range(3)))
+                pts.add(tuple(rng.randint(-24 - 2 * max(0, n - 12), 24 + 2 * max(0, n - 12)) / 8 for _ in range(3)))
             pts = sorted(pts)
             c = np.array(pts)
             d = np.linalg.norm(c[:, None, :] - c[None, :, :], axis=2) + np.eye(n) * 10
@@ -317,7 +324,7 @@ def size_class(n):
 # molecules whose symmetry number the search finds identically under EVERY atom order on the reference tree (exhaustively
 # enumerated for n <= 5, sampled for C2H4); the search's known heuristic failure (first candidate axis of a cluster wins)
 # reproduces only for the benzene-type class (large planar ring), which alone keeps the plain key
-ORDER_INDEPENDENT = ["H2", "HF", "CO2", "HCN", "C2H2", "H2O", "NH3", "BH3", "BF3", "CH4", "C2H4", "rand3", "rand4", "rand5"]
+ORDER_INDEPENDENT = ["H2", "HF", "CO2", "HCN", "C2H2", "H2O", "NH3", "BH3", "BF3", "CH4", "C2H4", "rand3", "rand4", "rand5", "H2O~", "NH3~"]
 
 
 def order_key(molecule):
@@ -479,11 +486,11 @@ def eval_units(case):
         except Exception as e:  # noqa
             fails.append((key, tag + f"{label}: raised {type(e).__name__}: {e}; plain numbers give {ref}"))
             return
-        if not (abs(got[0] - ref[0]) <= tol and abs(got[1] - ref[1]) <= tol):
+        if not (abs(got[0] - ref[0]) <= tol and abs(got[1] - ref[1]) <= tol):      # also true for nan / inf
             fails.append((key, tag + f"{label}: (H,G) = {got} but plain numbers in the default units give {ref}"))
 
     ref = run_thermo(sym, co, fr, kw)[:2]
-    entries = ["function"] + (["calc_thermo", "calc_g_cont", "calc_h_cont"] if len(sym) > 1 else [])
+    entries = ["function", "calc_thermo", "calc_g_cont", "calc_h_cont"]
     for via in entries:
         key = "calculate_thermo_cont|number-vs-unit-value" if via == "function" else f"Species.{via}|number-vs-unit-value"
         tvars = [("temp=float K", T), ("temp=Temperature(T,'K')", Temperature(T, units="K")),
@@ -517,13 +524,24 @@ def eval_units(case):
         for via in ("function", "calc_thermo", "calc_g_cont"):
             compare(f"Species.{via}|default-temperature" if via != "function" else "calculate_thermo_cont|default-temperature",
                     f"{via} without temp vs temp=298.15", r3, lambda via=via: run_thermo(sym, co, fr, kd, via=via))
-        # the species' own frequencies carried in Hz instead of cm-1 (the interpolating methods guard against it by assertion)
-        if kw["lfm_method"] in ("igm", "truhlar") and fr is not None:
+        # the species' own frequencies carried in Hz instead of cm-1, for the method of this case and for the default method
+        if fr is not None:
             fr_hz = [f * C_HZ for f in fr]
-            for via in ("function", "calc_thermo"):
-                compare("calculate_thermo_cont|frequency-units" if via == "function" else "Species.calc_thermo|frequency-units",
-                        f"{via}, species frequencies as Frequency(f*c,'hz')", ref,
-                        lambda via=via: run_thermo(sym, co, fr_hz, kw, via=via, freq_units="hz"))
+            for meth in sorted({kw["lfm_method"], "grimme"}):
+                k2 = dict(kw, lfm_method=meth)
+                r4 = ref if meth == kw["lfm_method"] else run_thermo(sym, co, fr, k2)[:2]
+                compare(f"calculate_thermo_cont|frequency-units-hz:{meth}", f"function, lfm_method={meth}, species frequencies as Frequency(f*c,'hz')", r4,
+                        lambda k2=k2: run_thermo(sym, co, fr_hz, k2, freq_units="hz"))
+    # temperature as other plain-number types; the method as the LFMethod enum
+    from autode.thermochemistry.igm import LFMethod
+    compare("calculate_thermo_cont|number-vs-unit-value", "function, temp=numpy.float64", ref, lambda: run_thermo(sym, co, fr, dict(kw, temp=np.float64(T))))
+    if float(T) == int(T):
+        compare("calculate_thermo_cont|number-vs-unit-value", "function, temp=int", ref, lambda: run_thermo(sym, co, fr, dict(kw, temp=int(T))))
+    if float(np.float32(T)) == T:
+        compare("calculate_thermo_cont|temp-numpy-float32", "function, temp=numpy.float32(T) (exactly representable)", ref,
+                lambda: run_thermo(sym, co, fr, dict(kw, temp=np.float32(T))))
+    compare("calculate_thermo_cont|lfm-method-enum", "function, lfm_method as LFMethod member", ref,
+            lambda: run_thermo(sym, co, fr, dict(kw, lfm_method=LFMethod[kw["lfm_method"]])))
     return fails
 
 
@@ -630,7 +648,113 @@ def sequences(mols):
     return out
 
 
-EVAL = {"frame": lambda c: eval_frame(c)[0], "identities": eval_identities, "units": eval_units, "sn-order": eval_sn_order,
+def bent_triatomic(symbols, delta_deg, d1=1.125, d2=1.125):
+    """A-B-C with the angle at B equal to 180 - delta degrees"""
+    a = math.radians(delta_deg)
+    return [[-d1, 0.0, 0.0], [0.0, 0.0, 0.0], [d2 * math.cos(a), d2 * math.sin(a), 0.0]]
+
+
+def eval_near_linear(case):
+    """a triatomic within a few degrees of linear, the same frequency list, explicit sigma: every atom order must give the same
+    H and G (the linear / non-linear decision must not depend on which atom is listed first)"""
+    sym, co, fr, kw = case["symbols"], case["coords"], case["freqs"], dict(case["kw"], sn=case["sigma"])
+    res = []
+    import itertools
+    for p in itertools.permutations(range(len(sym))):
+        h, g, sp = run_thermo([sym[i] for i in p], [co[i] for i in p], fr, kw)
+        res.append((list(p), bool(sp.is_linear()), len(sp.vib_frequencies), h, g))
+    h0, g0 = res[0][3], res[0][4]
+    bad = [r for r in res if abs(r[3] - h0) > TOL_HA or abs(r[4] - g0) > TOL_HA]
+    if not bad:
+        return []
+    b = bad[0]
+    return [(f"calculate_thermo_cont|atom-order-dependence:near-linear:delta={case['delta']}deg",
+             f"{''.join(sym)} bent by {case['delta']} deg from linear, frequencies {fr}, {kw}: atom order {res[0][0]} -> is_linear {res[0][1]}, "
+             f"{res[0][2]} vibrational modes, (H,G) = ({h0}, {g0}); atom order {b[0]} -> is_linear {b[1]}, {b[2]} modes, (H,G) = ({b[3]}, {b[4]}); "
+             f"dG = {b[4] - g0:.3e} Ha")]
+
+
+def spring_hessian(coords, k0=0.35):
+    """rigid-motion invariant model Hessian: a harmonic spring between every pair of atoms (Ha / A^2)"""
+    c = np.asarray(coords, dtype=float)
+    n = len(c)
+    H = np.zeros((3 * n, 3 * n))
+    for i in range(n):
+        for j in range(i + 1, n):
+            d = c[j] - c[i]
+            r = np.linalg.norm(d)
+            blk = (k0 / r ** 2) * np.outer(d / r, d / r)
+            for a, b, sg in ((i, i, 1), (j, j, 1), (i, j, -1), (j, i, -1)):
+                H[3 * a:3 * a + 3, 3 * b:3 * b + 3] += sg * blk
+    return H
+
+
+def eval_reorder(case):
+    """a species that CARRIES a Hessian is re-ordered in place (Species.reorder_atoms) and the contributions are recomputed:
+    they must not change (atom order) and must equal those of a species built directly in the new order"""
+    import autode as ade
+    from autode.hessians import Hessian
+    sym, co, kw = case["symbols"], np.array(case["coords"], dtype=float), dict(case["kw"])
+
+    def build(symbols, coords):
+        sp = ade.Species(name="c12_reorder", atoms=[ade.Atom(a, *map(float, c)) for a, c in zip(symbols, coords)], charge=0, mult=1)
+        sp.hessian = Hessian(spring_hessian(coords), atoms=sp.atoms, units="Ha Å^-2")
+        return sp
+
+    sp = build(sym, co)
+    sp.calc_thermo(**kw)
+    h0, g0 = float(sp.h_cont), float(sp.g_cont)
+    f0 = sorted(float(f) for f in sp.vib_frequencies)
+    mapping = {int(k): int(v) for k, v in case["mapping"].items()}
+    sp.reorder_atoms(mapping=mapping)
+    sp.calc_thermo(**kw)
+    h1, g1 = float(sp.h_cont), float(sp.g_cont)
+    f1 = sorted(float(f) for f in sp.vib_frequencies)
+    order = sorted(mapping, key=lambda k: mapping[k])
+    fresh = build([sym[i] for i in order], co[order])
+    fresh.calc_thermo(**kw)
+    h2, g2 = float(fresh.h_cont), float(fresh.g_cont)
+    fails = []
+    if [a.label for a in sp.atoms] != [sym[i] for i in order]:
+        return [("Species.reorder_atoms|atoms-not-reordered", f"{sym} mapping {mapping}: atoms afterwards {[a.label for a in sp.atoms]}")]
+    if max(abs(h1 - h0), abs(g1 - g0), abs(h2 - h0), abs(g2 - g0)) > TOL_HA:
+        fails.append(("Species.reorder_atoms|thermo-depends-on-atom-order",
+                      f"{''.join(sym)} with a pairwise-spring Hessian, {kw}: (H,G) = ({h0}, {g0}); after reorder_atoms({mapping}) and calc_thermo again "
+                      f"({h1}, {g1}); a species built in the new order ({h2}, {g2}); vibrational frequencies before {np.round(f0, 2).tolist()} "
+                      f"after {np.round(f1, 2).tolist()}"))
+    return fails
+
+
+def eval_failed_call(case):
+    """a call that fails must leave (h_cont, g_cont) a consistent pair: untouched"""
+    from autode.thermochemistry.igm import calculate_thermo_cont
+    sym, co, fr = case["symbols"], case["coords"], case["freqs"]
+    good, bad = dict(case["kw"]), dict(case["bad_kw"])
+    fails = []
+    tag = f"{case['molecule']}: call with {bad} "
+    for first in (False, True):
+        sp = make_species(sym, co, fr)
+        before = (None, None)
+        if first:
+            calculate_thermo_cont(sp, **good)
+            before = (float(sp.h_cont), float(sp.g_cont))
+        n_before = len(sp.energies)
+        try:
+            calculate_thermo_cont(sp, **bad)
+        except Exception as e:  # noqa
+            exc = type(e).__name__
+        else:
+            continue            # accepted: nothing to check here
+        after = (None if sp.h_cont is None else float(sp.h_cont), None if sp.g_cont is None else float(sp.g_cont))
+        if after != before or len(sp.energies) != n_before:
+            fails.append(("calculate_thermo_cont|inconsistent-H-G-after-failed-call",
+                          tag + f"raised {exc}; (h_cont, g_cont) before = {before} ({'after a successful ' + repr(good) if first else 'fresh species'}), "
+                          f"after the failed call = {after}: not the pair of one evaluation"))
+    return fails
+
+
+EVAL = {"near-linear": eval_near_linear, "reorder": eval_reorder, "failed-call": eval_failed_call,
+        "frame": lambda c: eval_frame(c)[0], "identities": eval_identities, "units": eval_units, "sn-order": eval_sn_order,
         "config": eval_config, "sequence": eval_sequence}
 
 
@@ -687,6 +811,9 @@ def corr_terms_for(ctx, add, name, sp, linear, sigma, T, freqs, light=False):
             ("urat", name, T))
 
 
+QUICK_CORR_SKIP = {"Ar", "C2H2", "BH3", "C2H4", "rand3", "rand4", "H2O~", "NH3~", "rand20", "HF"}     # thorough tier runs them all
+
+
 def correspondence(ctx, samples, full):
     """samples: list of (case, info) from the frame stream.  -> (disagreements, error)"""
     from autode.thermochemistry import igm
@@ -704,6 +831,7 @@ def correspondence(ctx, samples, full):
         ctx.count("model-vs-impl", key, nontrivial, sample=d)
 
     seen = set()
+    by_n = {c["molecule"]: c["symbols"] for c, _ in samples}
     for case, info in samples:
         name, T = case["molecule"], float(case["kw"]["temp"])
         sigma = case["sigma"] if case["sigma"] is not None else 1
@@ -713,9 +841,9 @@ def correspondence(ctx, samples, full):
             if (name, tag) in seen:
                 continue
             seen.add((name, tag))
-            if n > 12 and not full and (tag == "moved" or any(k[0].startswith("cluster") for k in seen if k != (name, tag))):
+            if n > 12 and not full and (tag == "moved" or any(len(by_n.get(k[0], ())) > 12 for k in seen if k != (name, tag))):
                 continue
-            if not full and tag == "moved" and n > 5 and name not in ("C6H6",):
+            if not full and (name in QUICK_CORR_SKIP or (tag == "moved" and n > 5)):
                 continue
             corr_terms_for(ctx, add, f"{name}/{tag}", sp, case["linear"], sigma, T, case["freqs"],
                            light=(not full and n > 5 and tag == "moved"))
@@ -732,6 +860,20 @@ def correspondence(ctx, samples, full):
         add(f"check_vol_reference {qc(T)}", dict(kind="effective-volumes-vs-definition", T=T), ("volref", T))
         v_atm, v_m = ref_volumes(T)
         add(f"check_vol [] SS_1atm {qc(T)} {qc(v_atm)} && check_vol [] SS_1M {qc(T)} {qc(v_m)}", dict(kind="effective-volumes", T=T), ("vol", T))
+    # the hand model of the linearity oracle: near-linear triatomics in every atom order, and the exact templates
+    import itertools
+    from autode.values import Angle
+    tol_lin = float(np.abs(1.0 - np.cos(Angle(1.0, units="degrees").to("rad"))))
+    lin_cases = [("".join(s3_), bent_triatomic(s3_, dl, 1.0625, 1.1875), s3_, dl) for s3_ in (["O", "C", "O"], ["H", "C", "N"]) for dl in (0.5, 1.5, 2.5)]
+    for nm, co3, sy3, dl in lin_cases:
+        for pm in itertools.permutations(range(3)):
+            sp3 = make_species([sy3[i] for i in pm], [co3[i] for i in pm], None)
+            add(f"check_are_linear {coq_rows(atom_rows(sp3))} {qc(tol_lin)} {coq_bool(bool(sp3.is_linear()))}",
+                dict(kind="are_linear", molecule=nm, delta=dl, perm=list(pm)), ("lin", nm, dl, pm))
+    for case, info in samples:
+        if len(case["symbols"]) <= 12:
+            add(f"check_are_linear {coq_rows(atom_rows(info['sp']))} {qc(tol_lin)} {coq_bool(bool(info['sp'].is_linear()))}",
+                dict(kind="are_linear", molecule=case["molecule"]), ("lin", case["molecule"], repr(case["kw"])))
     for w0 in (50.0, 100.0, 250.0):
         for f in (8.125, 99.875, 100.0, 731.5, 3500.0):
             for alpha in (1, 2, 4, 6):
@@ -827,6 +969,8 @@ def run(ctx):
     rc0, out0 = sh(["python3", f"{VERIF}/tr/translate_units.py"], timeout=120)
     rc, out = sh(["python3", f"{VERIF}/tr/translate_c12.py"], timeout=120)
     translated = rc == 0 and rc0 == 0
+    gen_path = os.path.join(COQ, "gen", "C12_Gen.v")
+    gen_text = open(gen_path).read() if translated and os.path.exists(gen_path) else None
     ctx.log("translator:", (out if rc0 == 0 else out0).strip()[:400])
     ctx.cov["translator"] = {"ok": translated, "output": (out0.strip()[:200] + " | " + out.strip())[:1500]}
     # 2. proofs over the regenerated model
@@ -862,7 +1006,7 @@ def run(ctx):
             if full:
                 k = len(psets) if n <= 4 else (8 if n <= 8 else (4 if n <= 12 else 2))
             else:
-                k = 1 if big else (2 if n > 6 else 3)
+                k = 1 if big else 2
             step = 3 if not full else 5          # coprime to len(psets) = 8 (quick) / 24 (thorough)
             chosen = [psets[(rot + step * j) % len(psets)] for j in range(k)]
             rot += 1
@@ -898,7 +1042,7 @@ def run(ctx):
                               sample=dict(molecule=mol["name"], freq_set=fname, kw=kw, sigma=sigma))
                     for key, what in (fl or []):
                         fails.add(key, what, icase)
-                if not big and first and (full or fi == 0):
+                if not big and first and (full or (fi == 0 and n <= 8)):
                     ucase = dict(case, kind="units", motion=None)
                     fl = guarded(fails, "calculate_thermo_cont", eval_units, ucase)
                     ctx.count("impl-number-vs-unit", (mol["name"], fname, repr(kw)), nontrivial=True, sample=dict(molecule=mol["name"], kw=kw))
@@ -974,6 +1118,51 @@ def run(ctx):
         ctx.count("impl-config-at-run-time", (name, fname, case["kw"]["temp"]), nontrivial=True, sample=dict(molecule=name, T=case["kw"]["temp"]))
         for key, what in (fl or []):
             fails.add(key, what, case)
+    # near-linear triatomics: the linear / non-linear decision and the 5-or-6 split of the frequencies in every atom order
+    for sym3, d1, d2 in ((["O", "C", "O"], 1.125, 1.125), (["H", "C", "N"], 1.0625, 1.1875)):
+        for delta in (0.5, 1.5, 2.5):
+            case = dict(kind="near-linear", molecule="".join(sym3), symbols=sym3, coords=bent_triatomic(sym3, delta, d1, d2), delta=delta,
+                        freqs=[0.0] * 5 + [12.0, 667.0, 1388.0, 2349.0], sigma=1, kw=dict(temp=298.15, ss="1M", lfm_method=rng.choice(METHODS)))
+            fl = guarded(fails, "calculate_thermo_cont", eval_near_linear, case)
+            ctx.count("impl-near-linear-atom-order", ("".join(sym3), delta), nontrivial=True, sample=dict(symbols=sym3, delta=delta))
+            for key, what in (fl or []):
+                fails.add(key, what, case)
+    # a species carrying a Hessian, re-ordered in place with non-involutive permutations
+    rsets = [(["C", "N", "O", "H", "F"], [[0, 0, 0], [1.25, 0.125, 0], [0.25, 1.375, 0.25], [-0.625, -0.5, 0.875], [1.875, 1.125, -0.75]]),
+             (["O", "H", "F", "Cl"], [[0, 0, 0.125], [0.75, 0, -0.5], [-1.25, 0.25, 0.375], [0.375, 1.625, 0.25]]),
+             (["O", "C", "S"], bent_triatomic(["O", "C", "S"], 1.5, 1.125, 1.5625)),          # within the near-linear band
+             (["H", "C", "N"], bent_triatomic(["H", "C", "N"], 1.25, 1.0625, 1.1875)),     # (a model Hessian of a structure the oracle calls
+                                                                                            #  linear has a zero mode among its vibrations: not used)
+             (["F", "C", "N"], bent_triatomic(["F", "C", "N"], 2.5, 1.25, 1.1875))]
+    for sym_r, co_r in rsets:
+        n = len(sym_r)
+        cyc = [{i: (i + 1) % n for i in range(n)}, {i: (i + 2) % n for i in range(n)},
+               {**{i: i for i in range(n)}, 0: 1, 1: 2, 2: 0}, {**{i: i for i in range(n)}, 0: 1, 1: 0}]
+        while len(cyc) < ((6 if n > 3 else 5) if not full else (16 if n > 3 else 6)):
+            p = list(range(n))
+            rng.shuffle(p)
+            cyc.append({i: p[i] for i in range(n)})
+        for mp in cyc:
+            case = dict(kind="reorder", molecule="".join(sym_r), symbols=sym_r, coords=co_r, mapping={str(k): v for k, v in mp.items()},
+                        kw=dict(temp=rng.choice([298.15, 350.0]), ss="1M", lfm_method=rng.choice(METHODS), sn=1))
+            fl = guarded(fails, "Species.reorder_atoms", eval_reorder, case)
+            involutive = all(mp[mp[i]] == i for i in mp)
+            ctx.count("impl-reorder-with-hessian", ("".join(sym_r), tuple(sorted(mp.items()))), nontrivial=not involutive, sample=dict(symbols=sym_r, mapping=mp))
+            ctx.hist("impl-reorder-with-hessian", "involutive" if involutive else "non-involutive")
+            for key, what in (fl or []):
+                fails.add(key, what, case)
+    # failing calls leave the stored pair untouched
+    for name in ("H2O", "Ar", "CO2"):
+        mol = by_name[name]
+        fr = freq_sets(rng, mol, full).get("mixed")
+        for bad_kw in (dict(temp=350.0, ss="1 atm", lfm_method="igm"), dict(temp=350.0, ss="1bar", lfm_method="grimme"),
+                       dict(temp=350.0, ss="1M", lfm_method="grimme", w0=7000.0), dict(temp=350.0, ss="1M", lfm_method="nonsense")):
+            case = dict(kind="failed-call", molecule=name, symbols=mol["symbols"], coords=mol["coords"], freqs=fr,
+                        kw=dict(temp=298.15, ss="1M", lfm_method="grimme", sn=1), bad_kw=dict(bad_kw, sn=1))
+            fl = guarded(fails, "calculate_thermo_cont", eval_failed_call, case)
+            ctx.count("impl-failed-call", (name, repr(bad_kw)), nontrivial=True, sample=dict(molecule=name, bad_kw=bad_kw))
+            for key, what in (fl or []):
+                fails.add(key, what, case)
     for seq in sequences(mols):
         for kw in (dict(temp=298.15, ss="1M", lfm_method="grimme"), dict(temp=500.0, ss="1atm", lfm_method="igm")):
             mol = by_name[seq["molecule"]]
@@ -996,6 +1185,9 @@ def run(ctx):
         ctx.log(f"correspondence: {len(corr_bad)} disagreements" + (f"; coq error {corr_err[:400]}" if corr_err else ""))
         ctx.cov["disagreements"] = len(corr_bad)
     # 5. decide
+    if gen_text is not None and open(gen_path).read() != gen_text:
+        ctx.violation("coq/gen/C12_Gen.v was rewritten by a concurrent run (another VERIF_REPO) while this check was running: the proofs / "
+                      "correspondence of this run are not about this repository; re-run", {"kind": "concurrent-run"}, found_input=False)
     unknown = len(ctx.violations)
     if not translated:
         if unknown == 0:
@@ -1037,21 +1229,31 @@ def replay(ctx, obj):
 
 MANIFEST = {
     "technique": ("Coq proof over formulas regenerated from source (ast translator of igm.py / Atoms.moi,com) + Coq evaluation of the "
-                  "rational-closed parts against the implementation + property identities checked on the implementation"),
+                  "rational-closed parts against the implementation + property identities and invariances checked on the implementation"),
     "level_text": ("Machine-checked theorems (coq/C12/Props.v) over the translated formulas: H = U + k_B T and G = H - T S as assembled by "
                    "calculate_thermo_cont; sigma enters G only as +k_B T ln(sigma) for both rotor branches; 1atm -> 1M shifts G by "
                    "k_B T ln(V_1atm/V_1M); a single atom has translational terms only; Truhlar = igm exactly when no frequency is below the "
-                   "shift; Grimme/Minenkov: exact gap sum (1-w_i)(s_r-s_v) [(u_r-u_v)], 0 <= 1-w_i <= (w0/f_i)^alpha, hence a (1/K)^alpha "
-                   "bound on the gaps in S, H and G when all f_i >= K w0; the inertia tensor about the centre of mass of ANY number of atoms "
-                   "is translation invariant and transforms by conjugation under every orthogonal frame change and atom permutation, trace "
-                   "and determinant are invariant (over any field; instantiated at R and Qc), q_rot is a closed form in the determinant, "
-                   "hence H, G, S, U are equal in every frame and atom order; re-centring/rigid motions preserve all distances; plain "
-                   "numbers and unit-carrying temperature/frequency arguments coincide (C06 conv at the same unit)."),
+                   "shift; Grimme/Minenkov (PARTIAL): exact gap sum (1-w_i)(s_r-s_v) [(u_r-u_v)], 0 <= 1-w_i <= (w0/f_i)^alpha and a "
+                   "(1/K)^alpha * sum|s_r-s_v| bound when all f_i >= K w0 - a bound, not the limit 'coincides when all frequencies are high'; "
+                   "the inertia tensor about the centre of mass of ANY number of atoms is translation invariant and transforms by conjugation "
+                   "under every orthogonal frame change and atom permutation, trace and determinant invariant (any field; R and Qc), q_rot a "
+                   "closed form in the determinant; frame / atom-order independence of H, G, S, U (PARTIAL, thermo_frame_independent_partial): "
+                   "proved for all molecule classes (atom, linear, non-linear) for the arithmetic BETWEEN the oracles, under the premises that "
+                   "is_linear answers alike in both frames, sigma is the same and the eigenvalue oracle is valid where consulted; "
+                   "is_linear_atom_order_independent proves (hand model of the repaired Atoms.are_linear, tied by pin + correspondence) that the "
+                   "first premise holds for every atom re-ordering; re-centring/rigid motions preserve all distances; plain numbers and "
+                   "unit-carrying temperature/frequency arguments coincide (C06 conv at the same unit)."),
     "level_note": ("Trusted: Coq kernel (+ standard real-number axioms for the ln/exp/sqrt theorems, listed by Print Assumptions); the translator "
                    "(validated each run: Coq evaluates the generated moi/com/weight/_moi_about_com, linear q_rot, q_rot^2, q_trans^2, effective "
-                   "volumes, zpe, rational part of U, Grimme weights and the H/G assembly at Qc against the implementation); the reading of "
-                   "numpy functions as real functions; oracles: eigvalsh (product=det, sum=trace validated per case), is_linear, and the symmetry "
-                   "number search (its atom-order dependence is reported under symmetry_number|atom-order-dependent; theorems take sigma as input). "
-                   "Transcendental parts (entropy terms) are tied by the identities checked on the implementation at 1e-9, not by value. "
-                   "Imaginary frequencies / non-default coordinate units are outside the model."),
+                   "volumes, zpe, rational part of U, Grimme weights, the H/G assembly and the hand model of are_linear at Qc against the "
+                   "implementation); the reading of numpy functions as real functions; 27 source pins for the hand-written parts. "
+                   "NOT proved, only exercised on the implementation: values of the transcendental entropy/energy terms (identities only; the "
+                   "generated ln/exp terms are never compared by value); invariance of the oracles (is_linear under rigid motions; symmetry-number search: key "
+                   "symmetry_number|atom-order-dependent for benzene-type molecules); the high-frequency limit; Species.calc_thermo / "
+                   "calc_g_cont / calc_h_cont entry points, run-time Config, re-used and re-ordered (reorder_atoms with a Hessian) species, failed "
+                   "calls. H_is_U_plus_kT / G_is_H_minus_TS / thermo_leaves_geometry / numbers_equal_unit_values are about short (generated or "
+                   "hand-written) definitions: their content is that unit factors cancel / a translation preserves distances. "
+                   "Imaginary frequencies, |f| or |w0| >= 6000 cm-1 (assert), negative alpha, T <= 0 and non-default coordinate units are outside "
+                   "the model. The generated files in coq/gen are shared by concurrent runs: a run whose C12_Gen.v was rewritten meanwhile "
+                   "reports itself as inconclusive."),
 }
